@@ -12,11 +12,13 @@ from shapes import ARG, ARGS, RET, RETS, INT_RET, INT_RETS, RECEIVERS, NEEDS_PRE
 
 
 class Method:
-    def __init__(self, name, recv, args=(), ret="unit", attrs=(), abi="", unsafe=False, default_body=None, int_ret=None, excluded=False):
+    def __init__(self, name, recv, args=(), ret="unit", attrs=(), abi="", unsafe=False, default_body=None, int_ret=None, excluded=False, where="", override=False):
         self.name, self.recv, self.args, self.ret = name, recv, list(args), ret
         self.attrs, self.abi, self.unsafe, self.default_body = list(attrs), abi, unsafe, default_body
         self.int_ret = int_ret      # key into INT_RET (overrides ret)
         self.excluded = excluded    # skip_func / vtbl_only / custom_impl: not part of the oracle
+        self.where = where          # e.g. "where Self: Sized"
+        self.override = override    # the implementor overrides the default body
 
     @property
     def R(self):
@@ -39,7 +41,7 @@ class Method:
         params = [recv_sig] + ["a%d: %s" % (i, ARG[a].ty) for i, a in enumerate(self.args)]
         ret = (" -> " + rty) if rty else ""
         pre = ("unsafe " if self.unsafe else "") + (('extern "%s" ' % self.abi) if self.abi else "")
-        return "%sfn %s%s(%s)%s" % (pre, self.name, gen, ", ".join(params), ret)
+        return "%sfn %s%s(%s)%s%s" % (pre, self.name, gen, ", ".join(params), ret, (" " + self.where) if self.where else "")
 
 
 class Trait:
@@ -93,7 +95,7 @@ def emit_impl(t, ty="$T"):
     """impl of trait t for the recording implementor (inside the impl_all! macro)."""
     out = ["impl %s%s for %s {" % (t.name, t.gen_use, ty)]
     for m in t.methods:
-        if m.default_body is not None:
+        if m.default_body is not None and not m.override:
             continue
         out.append("    #[allow(unused_mut, unused_variables, unused_assignments)]")
         out.append("    %s {" % m.sig())
@@ -344,6 +346,9 @@ def multi_method_traits(rng, tier):
         Method("uns", "mut", ["u64"], "u64", unsafe=True),
         Method("plain", "mut", ["u64"], "u64"),
         Method("with_default", "mut", ["u64"], "u64", default_body="self.plain(a0).wrapping_add(1)"),
+        Method("overridden_default", "mut", ["u64"], "u64", default_body="a0 ^ 0x5a5a", override=True),
+        Method("sized_default", "ref", ["u32"], "u32", default_body="a0.wrapping_mul(3)", where="where Self: Sized"),
+        Method("sized_overridden", "mut", ["u32"], "u32", default_body="a0.wrapping_mul(5)", where="where Self: Sized", override=True),
     ]))
     ts.append(Trait("Consumer", [
         Method("peek", "ref", ["u64"], "u64"),
@@ -369,6 +374,13 @@ def int_result_traits(rng, tier):
     ts.append(Trait("IrMethod", [
         Method("im_yes", "mut", ["u64"], None, int_ret="ir_u64_io", attrs=["int_result"]),
         Method("im_no", "mut", ["u64"], "res"),
+    ]))
+    # an unmarked method after a marked one keeps its full error value (non-OS io errors included)
+    ts.append(Trait("IrOrder", [
+        Method("io_before", "ref", ["u64"], None, int_ret="plain_io"),
+        Method("io_marked", "ref", ["u64"], None, int_ret="ir_u64_io", attrs=["int_result"]),
+        Method("io_after", "ref", ["u64"], None, int_ret="plain_io"),
+        Method("io_after_unit", "mut", ["u64"], None, int_ret="plain_io_unit"),
     ]))
     ts.append(Trait("IrAlias", [
         Method("ia_yes", "ref", ["u32"], None, int_ret="ir_u64_io_alias"),
@@ -405,9 +417,9 @@ def main():
     shards = [[] for _ in range(nshards)]
     for i, t in enumerate(ts):
         shards[i % nshards].append(t)
-    mods = []
+    os.makedirs(os.path.join(outdir, "src", "bin"), exist_ok=True)
     for si, sh in enumerate(shards):
-        body = [HEADER, "use crate::common::*;"]
+        body = [HEADER, "#[path = \"../common.rs\"]\nmod common;", "use common::*;"]
         for t in sh:
             body.append(emit_trait(t))
         body.append("macro_rules! impl_all_%d { ($T:ident) => {" % si)
@@ -422,17 +434,14 @@ def main():
         for t in sh:
             body.append("    if only.is_empty() || \"%s\".starts_with(only) { run_%s(seed, nhist, maxlen, rep); }" % (t.name, t.name))
         body.append("}")
-        with open(os.path.join(outdir, "src", "shard%d.rs" % si), "w") as f:
+        body.append(MAIN)
+        with open(os.path.join(outdir, "src", "bin", "shard%d.rs" % si), "w") as f:
             f.write("\n".join(body) + "\n")
-        mods.append("shard%d" % si)
     with open(os.path.join(outdir, "src", "common.rs"), "w") as f:
         f.write(COMMON)
-    with open(os.path.join(outdir, "src", "main.rs"), "w") as f:
-        f.write(MAIN % dict(mods="\n".join("mod %s;" % m for m in mods),
-                            calls="\n".join("    %s::run_all(seed, nhist, maxlen, &only, &mut rep);" % m for m in mods)))
     with open(os.path.join(outdir, "Cargo.toml"), "w") as f:
         f.write(CARGO)
-    meta = dict(tier=tier, seed=seed, traits=[dict(name=t.name, methods=[dict(name=m.name, recv=m.recv, args=m.args, ret=(m.int_ret or m.ret)) for m in t.methods],
+    meta = dict(tier=tier, seed=seed, shards=nshards, shard_traits=[[t.name for t in sh] for sh in shards], traits=[dict(name=t.name, methods=[dict(name=m.name, recv=m.recv, args=m.args, ret=(m.int_ret or m.ret)) for m in t.methods],
                                                    containers=containers_for(t)) for t in ts])
     with open(os.path.join(outdir, "corpus.json"), "w") as f:
         json.dump(meta, f, indent=1)
@@ -460,11 +469,7 @@ impl CtxPayload { pub fn new() -> Self { CtxPayload { magic: 0xC0FFEE } } }
 impl Drop for CtxPayload { fn drop(&mut self) { CTX_DROPS.fetch_add(1, Ordering::SeqCst); } }
 """
 
-MAIN = """// GENERATED
-#![allow(dead_code, unused_imports)]
-mod common;
-%(mods)s
-
+MAIN = """
 #[cfg(all(feature = "track-alloc", not(miri)))]
 #[global_allocator]
 static GLOBAL: vmon::alloc::TrackingAlloc = vmon::alloc::TrackingAlloc;
@@ -477,7 +482,7 @@ fn main() {
     let only: String = a.get(4).cloned().unwrap_or_default();
     std::panic::set_hook(Box::new(|_| {}));
     let mut rep = gluert::Report::new();
-%(calls)s
+    run_all(seed, nhist, maxlen, &only, &mut rep);
     for v in vmon::alloc::violations() {
         rep.violation(&format!("GLUE:alloc:{}", v.kind), &format!("ptr={:#x} allocated(size={},align={}) freed-as(size={},align={})", v.ptr, v.alloc_size, v.alloc_align, v.free_size, v.free_align), "");
     }
